@@ -19,6 +19,9 @@ class ToGFA1:
     for oline in self.captured_edges:
       gfapy.Field._validate_gfa_field(oline.line.overlap, "alignment_gfa1")
       overlaps.append(str(oline.line.overlap))
+    if not overlaps:
+      # path consisting in a single segment
+      overlaps.append("*")
     a.append(",".join(overlaps))
     for tn in self.tagnames:
       a.append(self.field_to_s(tn, tag=True))
